@@ -222,15 +222,173 @@ DomainNT(r) ==
      \/ (DHas(r, "vmf_concentration") /\ \E i \in 1..Len(DField(r, "vmf_concentration").t.data) :
             DField(r, "vmf_concentration").t.data[i] \in {r.kmin, r.kmax})
 
+(* ---- mstep : the M-step returns the documented weighted estimators (C08) ---- *)
+\* r.full = (..L, K, N); r.aff, r.sal (has_sal), r.qf (has_qf) flat Flt; r.z flat (..L, N, D) complex or real
+\* observations (already on the unit sphere for directional models); r.fields raw parameters; r.mkind
+MS == 256
+GammaS(r, ld, k, n) == LET ix == ld \o <<k, n>>
+                      IN  FMul(Get(r.aff, ix), IF r.has_sal THEN Get(r.sal, ld \o <<n>>) ELSE FOne)
+ZAt(r, ld, n, d) == LET v == Get(r.z, ld \o <<n, d>>) IN IF r.zcplx THEN v ELSE <<v, FZero>>
+LeadIdx(r) == AllIdx(SubSeq(r.full, 1, Len(r.full) - 2))
+KOf(r) == r.full[Len(r.full) - 1]
+NOf(r) == r.full[Len(r.full)]
+DOf(r) == r.z.shape[Len(r.z.shape)]
+Mass(r, ld, k) == FSum([n \in 1..NOf(r) |-> GammaS(r, ld, k, n - 1)])
+\* weighted scatter  sum_n g_n c_n z_n z_n^H  (c_n an extra per-observation factor), entry (a, b) -> <<value, scale>>
+ScatterS(r, ld, k, a, b, C(_)) ==
+  FoldLeft(LAMBDA acc, n : LET t == ZScale(FMul(GammaS(r, ld, k, n - 1), C(n - 1)), ZMul(ZAt(r, ld, n - 1, a), ZConj(ZAt(r, ld, n - 1, b))))
+                           IN  <<ZAdd(acc[1], t), FAdd(acc[2], ZL1(t))>>,
+           <<ZZero, FZero>>, [n \in 1..NOf(r) |-> n])
+FieldAt(r, name, idx) == Get(Field(r.fields, name).t, idx)
+\* proportional matrices: A_ab tr(B) = B_ab tr(A)
+Proportional(Aab(_, _), Bab(_, _), D, slack) ==
+  LET trA == ZSum([d \in 1..D |-> Aab(d - 1, d - 1)[1]]) trB == ZSum([d \in 1..D |-> Bab(d - 1, d - 1)[1]])
+      scA == FSum([d \in 1..D |-> Aab(d - 1, d - 1)[2]]) scB == FSum([d \in 1..D |-> Bab(d - 1, d - 1)[2]])
+  IN  \A a, b \in 0..(D - 1) :
+        ZClose(ZMul(Aab(a, b)[1], trB), ZMul(Bab(a, b)[1], trA),
+               FAdd(FMul(scA, scB), FAdd(FMul(Aab(a, b)[2], scB), FMul(Bab(a, b)[2], scA))), slack)
+\* covariance U diag(lambda) U^H of a stored eigendecomposition at (ld, k) -> <<value, scale>>
+EigCov(r, uname, lname, ld, k, a, b) ==
+  LET D == DOf(r)
+  IN  FoldLeft(LAMBDA acc, e : LET t == ZScale(FieldAt(r, lname, ld \o <<k, e - 1>>),
+                                             ZMul(FieldAt(r, uname, ld \o <<k, a, e - 1>>), ZConj(FieldAt(r, uname, ld \o <<k, b, e - 1>>))))
+                               IN  <<ZAdd(acc[1], t), FAdd(acc[2], ZL1(t))>>,
+               <<ZZero, FZero>>, [e \in 1..D |-> e])
+CacgMStep(r) ==
+  \A i \in 1..Len(LeadIdx(r)) : \A k \in 0..(KOf(r) - 1) :
+     LET ld == LeadIdx(r)[i]
+         invq(n) == FDiv(FOne, IF r.has_qf THEN Get(r.qf, ld \o <<k, n>>) ELSE FOne)
+     IN  Mass(r, ld, k) # FZero =>
+           Proportional(LAMBDA a, b : ScatterS(r, ld, k, a, b, invq),
+                        LAMBDA a, b : EigCov(r, "cacg_eigenvectors", "cacg_eigenvalues", ld, k, a, b), DOf(r), MS)
+\* Watson: mode is an eigenvector of the weighted scatter S with eigenvalue ell = w^H S w / mass, maximal on probes;
+\* r.watson_ratio[i] (kernel table from mpmath) = hypergeometric ratio at the returned concentration
+WatsonMStep(r) ==
+  \A i \in 1..Len(LeadIdx(r)) : \A k \in 0..(KOf(r) - 1) :
+     LET ld == LeadIdx(r)[i] D == DOf(r)
+         one(n) == FOne
+         S(a, b) == ScatterS(r, ld, k, a, b, one)
+         w(a) == FieldAt(r, "watson_mode", ld \o <<k, a>>)
+         Sw(a) == LET terms == [b \in 1..D |-> ZMul(S(a, b - 1)[1], w(b - 1))]
+                      scs == [b \in 1..D |-> FMul(S(a, b - 1)[2], ZL1(w(b - 1)))]
+                  IN  <<ZSum(terms), FSum(scs)>>
+         ell == LET terms == [a \in 1..D |-> ZMul(ZConj(w(a - 1)), Sw(a - 1)[1])] IN ZSum(terms)[1]   \* w^H S w (real)
+         mass == Mass(r, ld, k)
+         kap == FieldAt(r, "watson_concentration", ld \o <<k>>)
+         ratio == r.watson_ratio[(i - 1) * KOf(r) + k + 1]
+     IN  mass # FZero =>
+           \* eigenvector: S w = ell w   (|w| = 1)
+           /\ \A a \in 0..(D - 1) : ZClose(Sw(a)[1], ZScale(ell, w(a)), FAdd(Sw(a)[2], FMul(FAbs(ell), ZL1(w(a)))), MS)
+           \* top eigenvalue: ell >= every diagonal entry of S (Rayleigh quotient of the coordinate vectors)
+           /\ \A a \in 0..(D - 1) : FLe(S(a, a)[1][1], FAdd(ell, FMul(FNorm(MS, -19), S(a, a)[2])))
+           \* concentration: ratio(kappa) = ell / mass unless clipped (0 below 1/D, kmax above)
+           /\ FLe(FZero, kap) /\ FLe(kap, r.kmax)
+           /\ \/ (kap = FZero /\ FLe(FMul(ell, FInt(D)), FMul(mass, FAdd(FOne, FNorm(4096, -19)))))
+              \/ kap = r.kmax
+              \/ Close(FMul(ratio, mass), ell, FAdd(mass, ell), 4096)
+\* vMF: mean || resultant r = sum g x, unit; kappa^2 (1 - rb2)^2 = rb2 (D - rb2)^2 with rb2 = |r|^2 / mass^2, clipped
+VmfMStep(r) ==
+  \A i \in 1..Len(LeadIdx(r)) : \A k \in 0..(KOf(r) - 1) :
+     LET ld == LeadIdx(r)[i] D == DOf(r)
+         res(a) == FoldLeft(LAMBDA acc, n : LET t == FMul(GammaS(r, ld, k, n - 1), ZAt(r, ld, n - 1, a)[1])
+                                            IN  <<FAdd(acc[1], t), FAdd(acc[2], FAbs(t))>>, <<FZero, FZero>>, [n \in 1..NOf(r) |-> n])
+         mu(a) == FieldAt(r, "vmf_mean", ld \o <<k, a>>)
+         mass == Mass(r, ld, k)
+         n2 == FSum([a \in 1..D |-> FSq(res(a - 1)[1])])
+         rb2 == FDiv(n2, FSq(mass))
+         kap == FieldAt(r, "vmf_concentration", ld \o <<k>>)
+     IN  (mass # FZero /\ n2 # FZero) =>
+           /\ \A a, b \in 0..(D - 1) : Close(FMul(res(a)[1], mu(b)), FMul(res(b)[1], mu(a)),
+                                             FAdd(FMul(res(a)[2], FAbs(mu(b))), FMul(res(b)[2], FAbs(mu(a)))), MS)
+           /\ FLe(FZero, FSum([a \in 1..D |-> FMul(res(a - 1)[1], mu(a - 1))]))
+           /\ \/ kap = r.kmin \/ kap = r.kmax
+              \/ CloseRel(FMul(FSq(kap), FSq(FSub(FOne, rb2))), FMul(rb2, FSq(FSub(FInt(D), rb2))), 4096)
+\* Gaussian: weighted mean and pooled scatter (full / diagonal / spherical)
+GaussMStep(r) ==
+  \A i \in 1..Len(r.glead) : \A k \in 0..(KOf(r) - 1) :
+     LET ld == r.glead[i] D == DOf(r)
+         mass == Mass(r, ld, k)
+         m(a) == FieldAt(r, "gaussian_mean", (IF r.gshared THEN <<>> ELSE ld) \o <<k, a>>)
+         msum(a) == FoldLeft(LAMBDA acc, n : LET t == FMul(GammaS(r, ld, k, n - 1), ZAt(r, ld, n - 1, a)[1])
+                                             IN  <<FAdd(acc[1], t), FAdd(acc[2], FAbs(t))>>, <<FZero, FZero>>, [n \in 1..NOf(r) |-> n])
+         cov(a, b) == FoldLeft(LAMBDA acc, n : LET t == FMul(GammaS(r, ld, k, n - 1),
+                                                            FMul(FSub(ZAt(r, ld, n - 1, a)[1], m(a)), FSub(ZAt(r, ld, n - 1, b)[1], m(b))))
+                                                IN  <<FAdd(acc[1], t), FAdd(acc[2], FAbs(t))>>, <<FZero, FZero>>, [n \in 1..NOf(r) |-> n])
+         pre == (IF r.gshared THEN <<>> ELSE ld)
+     IN  mass # FZero =>
+           /\ \A a \in 0..(D - 1) : Close(FMul(m(a), mass), msum(a)[1], FAdd(msum(a)[2], FMul(FAbs(m(a)), mass)), MS)
+           /\ CASE r.gtype = "full" -> \A a, b \in 0..(D - 1) :
+                     LET c == FieldAt(r, "gaussian_covariance_full", pre \o <<k, a, b>>)
+                     IN  Close(FMul(c, mass), cov(a, b)[1], FAdd(cov(a, b)[2], FMul(FAbs(c), mass)), MS)
+                [] r.gtype = "diagonal" -> \A a \in 0..(D - 1) :
+                     LET c == FieldAt(r, "gaussian_covariance_diagonal", pre \o <<k, a>>)
+                     IN  Close(FMul(c, mass), cov(a, a)[1], FAdd(cov(a, a)[2], FMul(FAbs(c), mass)), MS)
+                [] r.gtype = "spherical" ->
+                     LET c == FieldAt(r, "gaussian_covariance_spherical", pre \o <<k>>)
+                         tot == FSum([a \in 1..D |-> cov(a - 1, a - 1)[1]])
+                     IN  Close(FMul(FMul(c, mass), FInt(D)), tot, FAdd(tot, FMul(FMul(FAbs(c), mass), FInt(D))), MS)
+\* mixture weights in Flt (same rule as WeightXChecks)
+WeightMStep(r) ==
+  LET w == Field(r.fields, "weight").t
+      fullT == [shape |-> r.full]
+      axes == Axes(fullT, r.wca)
+      R == Len(r.full) K == KOf(r)
+      expW == IF r.integration THEN IntWeightShape(fullT, r.wca) ELSE StdWeightShape(fullT, r.wca, r.wca_int)
+  IN IF w.shape # expW THEN FALSE
+     ELSE IF (~r.integration /\ ClassTiedInt(fullT, r.wca, r.wca_int)) \/ (r.integration /\ ClassAx(fullT) \in axes)
+          THEN \A i \in 1..Len(w.data) : CloseRel(FMul(w.data[i], FInt(K)), FOne, 64)
+     ELSE LET kd == KeepdimsShape(r.full, axes)
+              oidx == AllIdx(kd)
+              usesal == r.has_sal \/ r.always_sal \/ r.integration
+              S(o) == LET g == Group(r.full, axes, o)
+                      IN  FSum([j \in 1..Len(g) |-> FMul(Get(r.aff, g[j]), IF r.has_sal THEN SalAt(r.sal, g[j]) ELSE FOne)])
+              cnt(o) == Len(Group(r.full, axes, o))
+              ksize == kd[R - 1]
+              norm(o) == FSum([k \in 1..ksize |-> S([o EXCEPT ![R - 1] = k - 1])])
+              outAt(o) == IF r.integration THEN w.data[Off(w.shape, SubIdx(o, KeepAxes(R, axes)))] ELSE Get(w, o)
+          IN \A i \in 1..Len(oidx) : LET o == oidx[i] IN
+               IF usesal THEN (norm(o) = FZero \/ Close(FMul(outAt(o), norm(o)), S(o), FAdd(S(o), norm(o)), MS))
+               ELSE Close(FMul(outAt(o), FInt(cnt(o))), S(o), FAdd(S(o), FInt(cnt(o))), MS)
+MStepChecks(r) ==
+  IF r.exc # "" THEN << <<"raises", FALSE>> >>
+  ELSE IF ~(\A i \in 1..Len(r.fields) : FieldFinite(r.fields[i])) THEN << <<"finite", FALSE>> >>
+  ELSE << <<"weight", WeightMStep(r)>> >>
+       \o (IF r.comp = "cacg" THEN << <<"cacg_tyler_step", CacgMStep(r)>> >> ELSE <<>>)
+       \o (IF r.comp = "watson" THEN << <<"watson_estimator", WatsonMStep(r)>> >> ELSE <<>>)
+       \o (IF r.comp = "vmf" THEN << <<"vmf_estimator", VmfMStep(r)>> >> ELSE <<>>)
+       \o (IF r.comp = "gaussian" THEN << <<"gaussian_moments", GaussMStep(r)>> >> ELSE <<>>)
+
+(* ---- qform : the quadratic form handed to the next M-step is z^H B_prev^-1 z (C08 alternation) ---- *)
+QFormChecks(r) ==
+  IF r.exc # "" THEN << <<"raises", FALSE>> >>
+  ELSE << <<"quadratic_form",
+       \A i \in 1..Len(LeadIdx(r)) : \A k \in 0..(KOf(r) - 1) : \A n \in 0..(NOf(r) - 1) :
+          LET ld == LeadIdx(r)[i] D == DOf(r)
+              proj(e) == ZSum([a \in 1..D |-> ZMul(ZConj(FieldAt(r, "cacg_eigenvectors", ld \o <<k, a - 1, e>>)), ZAt(r, ld, n, a - 1))])
+              terms == [e \in 1..D |-> FDiv(ZAbs2(proj(e - 1)), FieldAt(r, "cacg_eigenvalues", ld \o <<k, e - 1>>))]
+          IN  Close(Get(r.qf, ld \o <<k, n>>), FSum(terms), FSumAbs(terms), MS)>> >>
+
+(* ---- loop : the hook event sequence of one fit equals the EMLoop behaviour ---- *)
+ExpectedEvents(model_start, n, al) ==
+  LET iter(first) == (IF first /\ ~model_start THEN <<>> ELSE (<<"estep">> \o (IF al THEN <<"align">> ELSE <<>>))) \o <<"mstep">>
+  IN  FoldLeft(LAMBDA acc, i : acc \o iter(i = 1), <<>>, [i \in 1..n |-> i])
+LoopChecks(r) ==
+  IF r.exc # "" THEN << <<"raises", FALSE>> >>
+  ELSE << <<"event_sequence", r.events = ExpectedEvents(r.model_start, r.iterations, r.aligner)>>,
+          <<"iteration_numbers", r.mstep_iterations = [i \in 1..r.iterations |-> i - 1]>> >>
+
 Checks(r) == CASE r.kind = "bayesx" -> BayesXChecks(r) [] r.kind = "posterior" -> PostChecks(r)
                [] r.kind = "init" -> InitChecks(r) [] r.kind = "flag" -> FlagChecks(r)
                [] r.kind = "weightx" -> WeightXChecks(r)
                [] r.kind = "twin" -> TwinChecks(r)
                [] r.kind = "domain" -> DomainChecks(r)
+               [] r.kind = "mstep" -> MStepChecks(r) [] r.kind = "qform" -> QFormChecks(r) [] r.kind = "loop" -> LoopChecks(r)
 NT(r) == CASE r.kind = "posterior" -> PostNT(r)
            [] r.kind = "bayesx" -> r.exc = "" /\ Len(r.w) >= 2
            [] r.kind = "twin" -> TwinNT(r)
            [] r.kind = "domain" -> DomainNT(r)
+           [] r.kind = "mstep" -> r.exc = "" /\ KOf(r) >= 2 /\ r.has_sal
+           [] r.kind = "loop" -> r.exc = "" /\ r.iterations >= 2
            [] OTHER -> r.exc = ""
 Init == l = 1 /\ verdicts = <<>>
 Next == /\ l <= Len(Trace)
